@@ -5,6 +5,9 @@ use std::panic;
 
 mod esc;
 mod num;
+mod store;
+mod values;
+mod ops;
 mod lexs;
 mod parses;
 
@@ -12,7 +15,9 @@ fn run_case(fields: &[&str]) -> String {
     match fields[0] {
         "NUM" => num::num_case(fields),
         "CMP" => num::cmp_case(fields),
+        "OP" => ops::op_case(fields),
         "LEX" => lexs::lex_case(fields),
+        "CHARCLASS" => lexs::charclass_case(fields),
         "PARSE" => parses::parse_case(fields),
         s => format!("UNKNOWN-SUITE {}", s),
     }
